@@ -78,6 +78,9 @@ class References:
       items.append(item)
     else:
       items.insert(0, item)
+    # (as the items given when the line was connected, the new one cannot
+    # be edited in place)
+    self._set_reference_orientations_editable(False)
 
   def _rm_item_from_connected_group(self, idx):
     items = self.get("items")
